@@ -165,13 +165,14 @@ func evalStable(sk sink, c Case) {
 	fee := dec(c.Fee)
 	feeR := ratOf(c.Fee)
 	before := snapStable(p)
-	A, B, S := before.B[0], before.B[1], before.S
+	pi, pj := c.pos()
+	A, B, S := before.B[pi], before.B[pj], before.S
 	if c.Fee == "0" {
 		sk.vac("zero_fee_cases")
 	}
 	xs := scaledRes(before.B, sf)
 	{
-		mx, mn := xs[0], xs[1]
+		mx, mn := xs[pi], xs[pj]
 		if mx.Cmp(mn) < 0 {
 			mx, mn = mn, mx
 		}
@@ -188,16 +189,16 @@ func evalStable(sk sink, c Case) {
 			return
 		}
 		// domain limit: amm input (scaled, after fee) >= scaled reserve of the input token
-		ammIn := rMul(rQuo(rInt(in), rInt(new(big.Int).SetUint64(sf[0]))), rSub(rOne, feeR))
-		mustFail := ammIn.Cmp(xs[0]) >= 0
+		ammIn := rMul(rQuo(rInt(in), rInt(new(big.Int).SetUint64(sf[pi]))), rSub(rOne, feeR))
+		mustFail := ammIn.Cmp(xs[pi]) >= 0
 		var calc, out sdk.Coin
 		cl1 := try(func() (e error) {
-			calc, e = p.CalcOutAmtGivenIn(ctx, sdk.Coins{coin(0, in)}, denoms[1], fee)
+			calc, e = p.CalcOutAmtGivenIn(ctx, sdk.Coins{coin(pi, in)}, denoms[pj], fee)
 			return
 		})
 		sk.transition()
 		cl := try(func() (e error) {
-			out, e = p.SwapOutAmtGivenIn(ctx, sdk.Coins{coin(0, in)}, denoms[1], fee)
+			out, e = p.SwapOutAmtGivenIn(ctx, sdk.Coins{coin(pi, in)}, denoms[pj], fee)
 			return
 		})
 		sk.transition()
@@ -227,12 +228,12 @@ func evalStable(sk sink, c Case) {
 		mustFail := out.Cmp(B) >= 0
 		var calc, in sdk.Coin
 		cl1 := try(func() (e error) {
-			calc, e = p.CalcInAmtGivenOut(ctx, sdk.Coins{coin(1, out)}, denoms[0], fee)
+			calc, e = p.CalcInAmtGivenOut(ctx, sdk.Coins{coin(pj, out)}, denoms[pi], fee)
 			return
 		})
 		sk.transition()
 		cl := try(func() (e error) {
-			in, e = p.SwapInAmtGivenOut(ctx, sdk.Coins{coin(1, out)}, denoms[0], fee)
+			in, e = p.SwapInAmtGivenOut(ctx, sdk.Coins{coin(pj, out)}, denoms[pi], fee)
 			return
 		})
 		sk.transition()
@@ -341,7 +342,7 @@ func evalStable(sk sink, c Case) {
 		}
 		var shares osmomath.Int
 		cl := try(func() (e error) {
-			shares, e = p.JoinPool(ctx, sdk.Coins{coin(0, in)}, fee)
+			shares, e = p.JoinPool(ctx, sdk.Coins{coin(pi, in)}, fee)
 			return
 		})
 		sk.transition()
@@ -360,8 +361,8 @@ func evalStable(sk sink, c Case) {
 		// observation (not asserted: the statement makes no per-operation claim for stableswap joins): movement
 		// of K^(1/d)/S, also relative to the explicitly counted rounding units of the share search
 		if cmp, fall := stablePerShareCmp(before, after, sf); cmp < 0 {
-			allow := stableSingleJoinAllowance(before.B, sf, 0)
-			if a2 := stableSingleJoinAllowance(after.B, sf, 0); a2.Cmp(allow) > 0 {
+			allow := stableSingleJoinAllowance(before.B, sf, pi)
+			if a2 := stableSingleJoinAllowance(after.B, sf, pi); a2.Cmp(allow) > 0 {
 				allow = a2
 			}
 			sk.maxExtra("max_stable_single_join_pershare_fall", fall)
@@ -381,12 +382,12 @@ func evalStable(sk sink, c Case) {
 				if e != nil {
 					return e
 				}
-				back = coins.AmountOf(denoms[0]).BigInt()
+				back = coins.AmountOf(denoms[pi]).BigInt()
 				for _, cn := range coins {
-					if cn.Denom == denoms[0] {
+					if cn.Denom == denoms[pi] {
 						continue
 					}
-					o, e := q.SwapOutAmtGivenIn(ctx, sdk.Coins{cn}, denoms[0], dec("0"))
+					o, e := q.SwapOutAmtGivenIn(ctx, sdk.Coins{cn}, denoms[pi], dec("0"))
 					if e != nil {
 						// nothing obtainable for this leg: not a gain
 						continue
@@ -400,6 +401,49 @@ func evalStable(sk sink, c Case) {
 				sk.violation("stable_single_join_round_trip_gain", c.sig(), fmt.Sprintf("%s: joined %s for %s shares; exiting them and swapping back at zero fee returns %s > %s", c.sig(), in, shares, back, in), c)
 			}
 		}
+	case "exitSingleComposite":
+		// the keeper's ExitSwapShareAmountIn at pool level: exit proportionally, swap every other asset
+		// received into denom pi through the pool
+		sh := resolveSize(c.Size, S)
+		if sh.Sign() == 0 {
+			sk.reject("skip:zero_amount")
+			return
+		}
+		var coins sdk.Coins
+		cl := try(func() (e error) {
+			coins, e = p.ExitPool(ctx, sdkInt(sh), dec("0"))
+			return
+		})
+		sk.transition()
+		if cl != "" {
+			sk.reject(cl)
+			if sh.Cmp(S) >= 0 {
+				sk.vac("exit_all_shares_refused")
+			}
+			return
+		}
+		mid := snapStable(p)
+		propExitCheck(sk, c, before.B, before.S, mid.B, mid.S, sh)
+		for _, cn := range coins {
+			if cn.Denom == denoms[pi] {
+				continue
+			}
+			b2 := snapStable(p)
+			cl := try(func() (e error) {
+				_, e = p.SwapOutAmtGivenIn(ctx, sdk.Coins{cn}, denoms[pi], fee)
+				return
+			})
+			sk.transition()
+			if cl != "" {
+				sk.reject(cl)
+				continue
+			}
+			a2 := snapStable(p)
+			if fullK(scaledRes(a2.B, sf)).Cmp(fullK(scaledRes(b2.B, sf))) < 0 {
+				sk.violation("stable_invariant_decreased", c.sig(), fmt.Sprintf("%s: swap leg %s -> %s: k fell: before B=%v after B=%v (scaling %v)", c.sig(), cn.Denom, denoms[pi], strs(b2.B), strs(a2.B), sf), c)
+			}
+			sk.vac("stable_binary_search_swaps")
+		}
 	default:
 		panic("unknown stableswap op " + c.Op)
 	}
@@ -407,8 +451,15 @@ func evalStable(sk sink, c Case) {
 
 // stableSwapCheck: exact, no tolerance: k_after >= k_before for k = x y (x^2 + y^2 + w) on reserve/scalingFactor.
 func stableSwapCheck(sk sink, c Case, before, after balSnap, sf []uint64) {
-	kb := swapK(scaledRes(before.B, sf), 0, 1)
-	ka := swapK(scaledRes(after.B, sf), 0, 1)
+	// full multi-asset invariant k = (prod r_i)(sum r_i^2) on reserve/scalingFactor, exact
+	kb := fullK(scaledRes(before.B, sf))
+	ka := fullK(scaledRes(after.B, sf))
+	for t := range before.B {
+		pi, pj := c.pos()
+		if t != pi && t != pj && before.B[t].Cmp(after.B[t]) != 0 {
+			sk.violation("swap_changed_other_reserve", c.sig(), fmt.Sprintf("%s: reserve %d changed %s -> %s", c.sig(), t, before.B[t], after.B[t]), c)
+		}
+	}
 	if ka.Cmp(kb) < 0 {
 		rel := f64(fRat(rQuo(rSub(kb, ka), kb)))
 		sk.violation("stable_invariant_decreased", c.sig(),
